@@ -167,3 +167,45 @@ void t3_lemma(void) {
     VASSERT(!(ca == 0 && cb == 0), "T3 a token never matches two neighbouring words");
     VEND();
 }
+
+/* ---- long tokens: a symbolic head, a long concrete filler of symbolic length, a
+ * symbolic tail.  Filler: a letter for the exact/prefix rules, the combining mark
+ * U+0301 (CC 81) for the accent-insensitive rules.  Covers token lengths up to
+ * KHEAD + 2*PADMAX + KTAIL bytes (> 256) against words of <= WMAX bytes.          */
+#ifndef KHEAD
+#define KHEAD 6
+#endif
+#ifndef KTAIL
+#define KTAIL 4
+#endif
+#ifndef PADMAX
+#define PADMAX 140
+#endif
+#define KLONG (KHEAD + 2 * PADMAX + KTAIL)
+struct in_t1_long { char head[KHEAD]; unsigned pad; char tail[KTAIL]; unsigned headlen, taillen; char elm[WMAX + 1]; };
+VF_DECL(t1_long)
+void t1_long(void) {
+    struct in_t1_long IN = VF_IN(t1_long);
+    VASSUME(IN.headlen <= KHEAD && IN.taillen <= KTAIL && IN.pad <= PADMAX);
+    static char key[KLONG + 1];
+    unsigned n = 0;
+    for (unsigned i = 0; i < KHEAD; ++i) if (i < IN.headlen) { VASSUME(IN.head[i] != '\0'); key[n++] = IN.head[i]; }
+    for (unsigned i = 0; i < PADMAX; ++i) if (i < IN.pad) {
+#if RULE & 2
+        key[n++] = (char)0xCC; key[n++] = (char)0x81;
+#else
+        key[n++] = 'x'; key[n++] = 'y';
+#endif
+    }
+    for (unsigned i = 0; i < KTAIL; ++i) if (i < IN.taillen) { VASSUME(IN.tail[i] != '\0'); key[n++] = IN.tail[i]; }
+    key[n] = '\0';
+    fix_len(IN.elm, WMAX, -1);
+    VASSUME(dom_ok((unsigned char*)key, KLONG) && dom_ok((unsigned char*)IN.elm, WMAX));
+    int c = real_cmp(key, IN.elm);
+    static unsigned char kl[KLONG + 1];
+    unsigned char wl[WMAX + 1];
+    unsigned kn = spec_letters(RULE, (unsigned char*)key, KLONG, kl);
+    unsigned wn = spec_letters(RULE, (unsigned char*)IN.elm, WMAX, wl);
+    VASSERT((c == 0) == spec_accept_letters(RULE, kl, kn, wl, wn), "T1 long tokens (hundreds of bytes) are accepted by the same rule: equal, or a prefix of >= 4 characters, never when they continue past the word");
+    VEND();
+}
